@@ -83,6 +83,16 @@ def are_joinable(
     if not block1.size:
         return JoinableResult(True, "block1 is empty")
 
+    # Symbols at the end of block1 mark the position between the two blocks
+    # (e.g. a label a patch ends with); joining would move them behind
+    # block2's contents.
+    if block2.size and any(
+        sym.at_end for sym in cache.reference_cache.get_references(block1)
+    ):
+        return JoinableResult(
+            False, "block1 has symbols referring to its end"
+        )
+
     if isinstance(block1, gtirb.DataBlock) and block2.size:
         for table_def in (_auxdata.types, _auxdata.encodings):
             table = table_def.get(module)
